@@ -167,6 +167,27 @@ def mip_average_violation(parent: bytes, pw: int, ph: int, child: bytes, cw: int
     return None
 
 
+def mip_pick_violation(parent: bytes, pw: int, ph: int, child: bytes, cw: int, ch: int, right: bool, lower: bool) -> Optional[dict]:
+    """The four documented nearest filters: child pixel = the upper/lower left/right pixel of the parent's block
+    (a dimension that is not halved has a block one pixel wide there)."""
+    if len(child) != 4 * cw * ch or len(parent) != 4 * pw * ph:
+        return {'why': 'buffer size', 'child_len': len(child), 'parent_len': len(parent)}
+    fx = pw // cw if cw else 0
+    fy = ph // ch if ch else 0
+    if fx not in (1, 2) or fy not in (1, 2) or fx * cw != pw or fy * ch != ph:
+        return {'why': 'dimensions', 'parent': [pw, ph], 'child': [cw, ch]}
+    dx = 1 if (right and fx == 2) else 0
+    dy = 1 if (lower and fy == 2) else 0
+    for y in range(ch):
+        for x in range(cw):
+            po = 4 * (pw * (fy * y + dy) + fx * x + dx)
+            co = 4 * (cw * y + x)
+            if child[co:co + 4] != parent[po:po + 4]:
+                return {'why': 'not the documented pixel of the block', 'x': x, 'y': y, 'got': list(child[co:co + 4]),
+                        'want': list(parent[po:po + 4])}
+    return None
+
+
 def expected_dims(w: int, h: int, level: int) -> Tuple[int, int]:
     return max(w >> level, 1), max(h >> level, 1)
 
